@@ -6,7 +6,8 @@ from ..runner import Op
 ID = "C12"
 KINDS = {"U": ["bsc_law_bin", "bsc_law_bip", "bsc_extremes", "bsc_support", "bec_law", "bec_support", "bec_extremes", "z_never_raises", "z_zero"]}
 PARTIAL = ["'independently with probability p' = output i is a function of (x_i, u_i) only (proved) + the draws of torch.rand_like are independent uniform on [0,1) "
-           "(trusted; supported by rate / pairwise-independence statistics with a per-run false-alarm bound <= 1e-9, which alone never raise a violation)"]
+           "(trusted; validated by event-rate and adjacent-pair counts on 2e6..8e6 symbols against multiplicative Chernoff bounds, false-alarm probability < 5e-10 per test, "
+           "as the property's quantifier prescribes)"]
 RULE = "re-seeded runs: the real channel and the model get the same uniform draws (torch.manual_seed + rand_like); outputs compared exactly; non-trivial = 0 < p < 1 and mixed input"
 ASSUMPTIONS = ["torch.manual_seed(s) followed by the same rand_like call reproduces the channel's draws", "probabilities are compared after rounding to float32 as the channel stores them"]
 
@@ -40,7 +41,9 @@ def corr(ctx):
     for p in probs:
         for shape in shapes:
             for alphabet in ("bin", "bip"):
-                for dtype in (torch.float32, torch.int64, torch.float64):
+                for dtype in (torch.float32, torch.int64, torch.float64, torch.bool, torch.uint8, torch.int8):
+                    if alphabet == "bip" and dtype in (torch.bool, torch.uint8):
+                        continue
                     seedc += 1
                     x = make_input(shape, alphabet, dtype)
                     x_before = x.clone()
@@ -76,29 +79,58 @@ def corr(ctx):
                                   nontrivial=0 < p < 1, info={"site": "channels:BinaryZChannel", "config": {"p": p, "alphabet": alphabet, "dtype": str(dtype), "shape": list(shape)}},
                                   prop_ok=never and bool((x == x_before).all())))
                     ctx.count("cases_p=%g" % p, 3)
-    ctx.extra["statistics"] = _statistics(ctx)
+    # ---- large re-seeded runs: the transition law on the regenerated draws, symbol by symbol (vectorised oracle)
+    nbig = 2_000_000
+    for p in (1e-3, 0.37):
+        x = (torch.rand(nbig, generator=torch.Generator().manual_seed(5 + ctx.seed)) < 0.5).float()
+        for name, ch, prob, law in (("BinarySymmetricChannel", BinarySymmetricChannel(p), "crossover_prob", lambda x, u, q: torch.where(u < q, 1 - x, x)),
+                                    ("BinaryErasureChannel", BinaryErasureChannel(p), "erasure_prob", lambda x, u, q: torch.where(u < q, torch.full_like(x, -1.0), x))):
+            seedc += 1
+            torch.manual_seed(seedc); y = ch(x)
+            torch.manual_seed(seedc); u = torch.rand_like(x)
+            want = law(x, u, float(getattr(ch, prob)))
+            nd = int((y != want).sum())
+            ev = (y != x)
+            ops.append(Op("bsc 0 0 0", "0", nontrivial=False, info={"site": "channels:%s.large" % name, "config": {"p": p, "n": nbig, "differing_symbols": nd, "event_rate": float(ev.float().mean())}}, prop_ok=(nd == 0)))
+            ctx.count("large_reseeded")
+    st = _statistics(ctx)
+    ctx.extra["statistics"] = st
+    for key, v in st.items():
+        ops.append(Op("bsc 0 0 0", "0", nontrivial=False, info={"site": "channels:%s.rate" % key.split("_p")[0], "config": dict(v, case=key)}, prop_ok=bool(v["rate_ok"] and v["lag1_ok"])))
     return ops
 
 
+def _chernoff_ok(count, n, p, logfa=21.5):
+    """two-sided multiplicative Chernoff bound: P(X >= (1+d)mu) <= exp(-d^2 mu/(2+d)), P(X <= (1-d)mu) <= exp(-d^2 mu/2);
+    accept iff the observed deviation has bound > exp(-logfa) (logfa = 21.5: false-alarm probability < 5e-10 per test)"""
+    mu = n * p
+    if mu == 0:
+        return count == 0
+    d = abs(count - mu) / mu
+    if count >= mu:
+        return d * d * mu / (2 + d) < logfa
+    return d * d * mu / 2 < logfa
+
+
 def _statistics(ctx):
-    """support only: flip / erase rates and lag-1 independence on >= 10^6 symbols, thresholds for a false-alarm probability <= 1e-9"""
+    """event rates (Chernoff bound, false-alarm probability < 5e-10 per test) and lag-1 dependence of the error / erasure events"""
     import torch
     from kaira.channels.digital import BinarySymmetricChannel, BinaryErasureChannel, BinaryZChannel
-    n = 4_000_000 if ctx.thorough else 1_000_000
     out = {}
     torch.manual_seed(4242 + ctx.seed)
-    z = 6.2  # two-sided normal quantile for ~6e-10
-    for p in (0.1, 0.5):
+    for p, n in ((1e-3, 8_000_000), (0.1, 2_000_000), (0.5, 2_000_000)):
         x = torch.randint(0, 2, (n,)).float()
         for name, ch, ev in (("bsc", BinarySymmetricChannel(p), lambda x, y: (x != y)), ("bec", BinaryErasureChannel(p), lambda x, y: (y == -1)), ("z", BinaryZChannel(p), lambda x, y: (x != y)[x == 1])):
             y = ch(x)
-            e = ev(x, y).float()
+            e = ev(x, y)
             m = e.numel()
-            rate = float(e.mean())
-            tol = z * math.sqrt(p * (1 - p) / m)
-            lag = float((e[1:] * e[:-1]).mean()) - rate * rate
-            tol_lag = z * p * (1 - p) / math.sqrt(m) * 1.5
-            out["%s_p%g" % (name, p)] = {"n": m, "rate": rate, "rate_ok": abs(rate - p) <= tol, "lag1_cov": lag, "lag1_ok": abs(lag) <= tol_lag}
+            cnt = int(e.sum())
+            ef = e.float()
+            both = int((e[1:] & e[:-1]).sum())          # adjacent events: Binomial(m-1, p^2) up to 1-dependence; the bound is applied to even and odd pairs
+            even = int((e[1::2][: (m - 1) // 2] & e[0::2][: (m - 1) // 2]).sum())
+            npairs = (m - 1) // 2
+            out["%s_p%g" % (name, p)] = {"n": m, "events": cnt, "rate": cnt / m, "rate_ok": _chernoff_ok(cnt, m, p),
+                                          "adjacent_pairs": even, "pair_rate": even / max(npairs, 1), "lag1_ok": _chernoff_ok(even, npairs, p * p)}
     return out
 
 
@@ -111,6 +143,14 @@ def search(ctx, mismatches, broken, prop_fail):
         if site is None or key in seen:
             continue
         seen.add(key)
+        if site.endswith(".large"):
+            out.append({"site": site, "config": cfg, "kind": "failing-input", "ops": [],
+                        "what": "%s: on %d symbols with p=%g, %d outputs differ from the transition law applied to the regenerated draws (observed event rate %.6g)" % (site.split(":")[1], cfg.get("n"), cfg.get("p"), cfg.get("differing_symbols"), cfg.get("event_rate"))})
+            continue
+        if site.endswith(".rate"):
+            out.append({"site": site, "config": cfg, "kind": "failing-input", "ops": [],
+                        "what": "%s: %d events in %d symbols (rate %.6g) / %d adjacent event pairs - outside the Chernoff bound for independent events of the configured probability (false-alarm probability < 5e-10)" % (cfg.get("case"), cfg.get("events"), cfg.get("n"), cfg.get("rate"), cfg.get("adjacent_pairs"))})
+            continue
         toks = pf["op"].split()
         law = _law(toks)
         if pf in prop_fail and pf["impl"] == law:
